@@ -1,7 +1,10 @@
 package main
 
 import (
+	"encoding/hex"
 	"fmt"
+	"runtime"
+	"runtime/debug"
 	"testing"
 
 	u "github.com/rivo/uniseg"
@@ -104,8 +107,82 @@ var allocFns = []allocFn{
 	{"HasTrailingLineBreakInString", func(b []byte, s string) { allocSink += b2i(u.HasTrailingLineBreakInString(s)) }},
 }
 
+// allocFirstCall (search only): AllocsPerRun warms up before it measures, so an allocation that happens
+// only the first time a code point is seen (a lazily filled cache) is invisible to it. Here every
+// input consists of code points no earlier input contained, each function is called once, and the
+// process-wide malloc counter is read before and after. A function is reported only if at least three
+// different fresh inputs each show an allocation.
+func allocFirstCall(s *stageResult) {
+	pools := [][2]rune{{0x1F000, 0x1FAFF}, {0x2600, 0x27BF}, {0x3000, 0x30FF}, {0x4E00, 0x9FFF}, {0xAC00, 0xD7A3}, {0x0600, 0x06FF}, {0x0900, 0x097F}, {0x2100, 0x21FF}, {0xA0, 0x17F}}
+	next := make([]rune, len(pools))
+	for i, p := range pools {
+		next[i] = p[0]
+	}
+	old := debug.SetGCPercent(-1)
+	defer debug.SetGCPercent(old)
+	hits := map[string][][]byte{}
+	var m0, m1 runtime.MemStats
+	for i := 0; i < 160; i++ {
+		var rs []rune
+		for j := range pools {
+			if next[j] <= pools[j][1] {
+				rs = append(rs, next[j])
+				next[j] += 1 + rune(j%3)
+			}
+		}
+		b := []byte(string(rs))
+		// a shared cache is filled by the first function that sees a code point, so every input goes to
+		// one function only, in rotation
+		k := i % len(allocFns)
+		af := allocFns[k]
+		str := string(b)
+		runtime.ReadMemStats(&m0)
+		af.f(b, str)
+		runtime.ReadMemStats(&m1)
+		s.Evaluations++
+		if m1.Mallocs != m0.Mallocs {
+			hits[af.name] = append(hits[af.name], b)
+		}
+	}
+	for name, hs := range hits {
+		if len(hs) >= 3 {
+			s.add("alloc-first "+name+" "+hx(hs[0]), fmt.Sprintf("heap allocations on the first call with fresh code points (%d of the fresh inputs given to this function)", len(hs)), "0",
+				fmt.Sprintf("%s allocates the first time it sees %+q", name, string(hs[0])))
+		}
+	}
+}
+
+var allocFirst bool
+var allocFirstInput string
+
+// replay of an alloc-first finding: single first calls on the recorded input, in a fresh process
+func allocFirstReplay(s *stageResult, b []byte) {
+	old := debug.SetGCPercent(-1)
+	defer debug.SetGCPercent(old)
+	var m0, m1 runtime.MemStats
+	str := string(b)
+	for _, af := range allocFns {
+		runtime.ReadMemStats(&m0)
+		af.f(b, str)
+		runtime.ReadMemStats(&m1)
+		s.Evaluations++
+		if m1.Mallocs != m0.Mallocs {
+			s.add("alloc-first "+af.name+" "+hx(b), fmt.Sprintf("%d heap allocations on the first call", m1.Mallocs-m0.Mallocs), "0",
+				fmt.Sprintf("%s allocates the first time it sees %+q", af.name, str))
+		}
+	}
+}
+
 func stageAlloc(cs *caseSource, thorough bool) stageResult {
 	s := stageResult{Name: "ALLOC", Domain: "testing.AllocsPerRun of a complete pass with each of the 14 functional-API functions on generated inputs (templates, random, malformed, each also repeated to 40-4000 bytes)"}
+	if allocFirstInput != "" {
+		if b, err := hex.DecodeString(allocFirstInput); err == nil {
+			allocFirstReplay(&s, b)
+		}
+	}
+	if allocFirst {
+		allocFirstCall(&s)
+	}
 	seen := map[string]bool{}
 	measure := func(b []byte) {
 		str := string(b)
